@@ -8,6 +8,11 @@ usage: tools_seed.py <seed-id> <src-dir> <property> [<more check ids to run>...]
 """
 import sys, os, subprocess, json, shutil, glob, re, time
 sid, src, prop = sys.argv[1], sys.argv[2], sys.argv[3]
+note = None
+if "--note" in sys.argv:
+    i = sys.argv.index("--note")
+    note = sys.argv[i + 1]
+    del sys.argv[i:i + 2]
 checks = [prop] + [a for a in sys.argv[4:] if a != "--all"]
 if "--all" in sys.argv:
     checks = [prop] + ["C%02d" % i for i in range(1, 21) if "C%02d" % i != prop]
@@ -32,6 +37,8 @@ try:
         txt = open(d).read()
         m = re.search(r"^package\s+(\w+)", txt, re.M)
         pkg = m.group(1)
+        if pkg.endswith("_test") and pkg != "tally_test":
+            pkg = pkg[:-5]
         sub = {"tally": ".", "tally_test": ".", "m3": "m3", "m3_test": "m3", "thriftudp": "m3/thriftudp", "prometheus": "prometheus", "multi": "multi", "statsd": "statsd", "instrument": "instrument", "customtransport": "m3/customtransports", "cache": "internal/cache", "v2": "m3/thrift/v2", "m3thrift": "m3/thrift/v2", "thrift": "thirdparty/github.com/apache/thrift/lib/go/thrift", "main": None}.get(pkg, ".")
         placed.append((d, sub, pkg))
     pkgs = sorted({("./" + s if s != "." else ".") for _, s, _ in placed if s is not None})
@@ -121,6 +128,8 @@ try:
 finally:
     sh("git -C /repo worktree remove --force %s" % rwt)
     shutil.rmtree(rout, ignore_errors=True)
+if note:
+    meta["history"] = note
 meta["checks_run_against_patch"] = results
 meta["caught_by"] = [c for c, r in results.items() if r["verdict"] == "VIOLATION"]
 dst = "/verif/seeded/" + sid
